@@ -27,7 +27,17 @@ def v2_accepts(v):
     return v in ('PASS', 'ALLOW_BYPASS')
 
 
-RAISES = {'raise:TimeoutError': TimeoutError, 'raise:CancelledError': asyncio.CancelledError, 'raise:ValueError': ValueError}
+def _foreign_failure(msg):
+    # what escapes from a validator whose own (nested) fetch of a certificate was refused: a ValidationFailure that describes
+    # ANOTHER packet and carries the verdict of another validator
+    from ndn.encoding import parse_data as _pd, make_data as _md, MetaInfo as _MI
+    from ndn.security import DigestSha256Signer as _DS
+    n_, m_, c_, s_ = _pd(bytes(_md('/nested/KEY/k1', _MI(), b'certificate-bits', _DS())))
+    return types.ValidationFailure(n_, m_, c_, s_, types.ValidResult.SILENCE)
+
+
+RAISES = {'raise:TimeoutError': TimeoutError, 'raise:CancelledError': asyncio.CancelledError, 'raise:ValueError': ValueError,
+          'raise:ValidationFailure-of-a-nested-fetch': _foreign_failure}
 
 
 def is_raise(v):
@@ -71,6 +81,8 @@ def check_data_side(ctx, rng):
         for verdict in RAISES:
             for (t_data, lat) in ((10, 0), (10, 20), (90, 50)):
                 special.append((fe, verdict, 100, t_data, lat, 0))
+            if fe == 'v2':
+                special.append((fe, verdict, 100, 10, 200, 350))      # gives up after the deadline; the caller begins to await later still
     # current front-end: express() sends at once and returns a coroutine; the caller starts awaiting it later (but before
     # the deadline).  The deadline is still send time + lifetime.
     for verdict in ('PASS', 'ALLOW_BYPASS', 'FAIL'):
@@ -205,6 +217,16 @@ def run_data_case(ctx, fe, verdict, L, t_data, lat, await_at=0, implicit=False, 
         ctx.event('data-validator-raised')
         if kind == 'data':
             ctx.report(f'payload-returned-although-validator-raised:{fe}', f'Data returned although the validator gave up with {verdict}', w)
+        elif isinstance(val, types.ValidationFailure) and fe == 'v2':
+            # (legacy front-end: the validator runs inside the caller's own await, its exception reaches the caller as any exception
+            # of the caller's code would - not judged.)  Current front-end: the validator runs in a task of the library, which decides
+            # what the caller is told: a validation failure reported for THIS Interest carries this Interest's packet, and
+            # nothing but a timeout is reported once the deadline has passed
+            ctx.event('validation-failure-after-the-validator-raised')
+            if val.name is None or [bytes(c) for c in val.name] != name or val.content is None or bytes(val.content) != b'payload':
+                ctx.report(f'validation-failure-lacks:packet:{fe}:validator-raised', 'the ValidationFailure handed to the caller describes another packet than the one that answered its Interest', w)
+            if rel == 'after' and fe == 'v2':
+                ctx.report('verdict-after-deadline:v2:validator-raised', f'ValidationFailure delivered at {t} ms although the validator gave up after the {L} ms deadline (a timeout is due)', w)
         return
     for le in S.sentinel.all():
         ex = le.get('exception')
